@@ -101,6 +101,22 @@ theorem cached_offset_exact_counterexample : ¬ cached_offset_exact_full := by
   revert this
   decide
 
+/-! ### the future offset of an instance -/
+
+/-- **What the future offset of an instance is** (`atomFutOff`, the rule of `Dependency.get_prerequisite` however the
+trigger is written - `x[+P2]`, `x[^+P2]`, ...): no offset iff no prerequisite atom (suicide ones included) lies at a
+later cycle; offset `o` iff `o > 0`, some atom lies exactly `o` cycles later and none lies further -/
+theorem future_offset_meaning (p : Int) (pres : List Pre) :
+    (atomFutOff p pres = none → ∀ q ∈ atomPts pres, q ≤ p) ∧
+    (∀ o, atomFutOff p pres = some o → 0 < o ∧ (p + o) ∈ atomPts pres ∧ ∀ q ∈ atomPts pres, q ≤ p + o) :=
+  atomFutOff_spec p pres
+
+/-- … and that is the offset every theorem here, the model and the judge use for an instance (`wfFut`, checked by the
+driver on every extracted graph; what the implementation records per instance is compared with it by judge clause R0) -/
+theorem future_offset_of_instance (g : Graph) (hwf : wfFut g = true) (n : String) (p : Int) (t : TaskDefn) (d : InstDef)
+    (ht : g.task? n = some t) (hd : t.inst? p = some d) : instOff g n p = atomFutOff p (d.pre ++ d.sui) :=
+  instOff_of_wfFut g hwf n p t d ht hd
+
 /-! ### the limit -/
 
 /-- **A forced `compute_runahead` (what every change of the cached maximum triggers) yields the specification limit**
